@@ -76,6 +76,7 @@ def _build(with_listener):
     c = cfg.create_command("work")
     c.add_argument("name", Argument.OPTIONAL, "n")
     c.add_option("flag", "f")
+    c.add_option("sub")                      # an option that is named like one of the command's sub-commands
     c.set_handler(CallbackHandler(_handler("work")))
     o = cfg.create_command("other")
     o.set_handler(CallbackHandler(_handler("other")))
@@ -299,12 +300,17 @@ def listener_status_other(i: int) -> bool:
 
 def no_other_handler(which: int, r: int) -> bool:
     """
-    pre: 0 <= which <= 3
+    pre: 0 <= which <= 5
     pre: -2 <= r <= 2
     post: _
     """
     STATE["result"], STATE["exc"], STATE["listener"] = r, None, 0
-    tokens = [["work"], ["other"], ["work", "sub"], ["w2"]][0 if which == 0 else (1 if which == 1 else (2 if which == 2 else 3))]
+    from vf.sym import conc_int
+    which = conc_int(which, 0, 5)
+    tokens = [["work"], ["other"], ["work", "sub"], ["w2"], ["work", "-f", "--sub"], ["work", "--sub", "-f"]][which]
+    if which >= 4:
+        status, out, err = _run(APP, tokens)
+        return [c[0] for c in STATE["calls"]] == ["work"]
     status, out, err = _run(APP, tokens)
     return [c[0] for c in STATE["calls"]] == [" ".join(tokens)]
 
